@@ -6,11 +6,12 @@ import "strconv"
 
 //vp:property C06
 //vp:set reads 2 3
-//vp:set sizes 6 9
-//vp:bounds backend->client: a host stream delivered in `reads` socket reads, each of a size drawn from {0,1,2,255,4085,4086,(thorough: 256,4087,8200)}, first/last/middle bytes symbolic (rest constant 0xEE), then a read error
+//vp:set sizes 8 11
+//vp:set loopmax 400000 400000
+//vp:bounds backend->client: a host stream delivered in `reads` socket reads, each of a size drawn from {0,1,2,255,4085,4086,65535,65536,(thorough: 256,4087,70000)}, first/last/middle bytes symbolic (rest constant 0xEE), then a read error
 //vp:reach relayed
 func VP_C06_forward() {
-	sizes := []int{0, 1, 2, 255, 4085, 4086, 256, 4087, 8200}
+	sizes := []int{0, 1, 2, 255, 4085, 4086, 65535, 65536, 256, 4087, 70000}
 	nreads := vpParam("reads")
 	conn := &vpConn{}
 	var stream []byte
@@ -98,4 +99,39 @@ func VP_C06_receive_short() {
 			vpAssert(vpEqBytes(w, carried[:len(w)]), "forwarded-bytes-are-the-carried-bytes")
 		}
 	}
+}
+
+//vp:property C06 C08
+//vp:set k 3 4
+//vp:set maxalloc 16 16
+//vp:bounds client->backend through the packet loop: with an open channel, K packets each DATA (payload of 0..2 symbolic bytes, length field exact) or KEEPALIVE (an 8-byte packet), one packet per read, then the client drops; the host must receive exactly the concatenation of the DATA payloads
+//vp:reach relayed
+func VP_C06_stream() {
+	vpResetC01()
+	k := vpParam("k")
+	var want []byte
+	tr := &vpTransport{ngen: k}
+	tr.gen = func(i int) []byte {
+		is := strconv.Itoa(i)
+		if vpBool("keepalive" + is) {
+			return vpPacket(0xD, []byte{})
+		}
+		pl := vpBytes("payload"+is, 2)
+		want = append(want, pl...)
+		return vpPacket(0xA, append([]byte{byte(len(pl)), 0}, pl...))
+	}
+	rwc := &vpConn{block: true}
+	tun := &Tunnel{transportIn: tr, transportOut: tr, User: vpUser(), rwc: rwc}
+	p := NewProcessor(&Gateway{}, tun)
+	p.state = SERVER_STATE_CHANNEL_CREATE
+	p.Process(vpCtx())
+	var got []byte
+	for _, w := range rwc.written {
+		got = append(got, w...)
+	}
+	vpReach("relayed")
+	vpAssert(tr.pos == k, "every-packet-of-the-stream-is-processed")
+	vpAssert(len(got) == len(want), "host-receives-exactly-as-many-bytes-as-the-client-declared")
+	vpAssert(vpEqBytes(got, want), "host-stream-equals-the-concatenated-data-payloads")
+	vpAssert(len(tr.out) == 0, "no-response-to-data-or-keepalive")
 }
